@@ -2428,6 +2428,7 @@ void uncrustify_file(const file_mem &fm, FILE *pfout, const char *parsed_file,
       align_all();
       indent_text();
       old_changes = cpd.changes;
+      VERIF_HOOK(verif_width_iter("head", cpd.changes, first));
 
       if (options::code_width() > 0)
       {
@@ -2478,6 +2479,7 @@ void uncrustify_file(const file_mem &fm, FILE *pfout, const char *parsed_file,
          }
       }
       dump_step(dump_file, "Inside second while loop");
+      VERIF_HOOK(verif_width_iter("foot", cpd.changes, first));
    } while (old_changes != cpd.changes);
 
    // And finally, align the backslash newline stuff
